@@ -143,12 +143,22 @@ func c20Scenario() (choice.Scenario, func() any) {
 		t := t
 		tags = append(tags, tagOpt{fmt.Sprint(t), eBad, func(n *mcbor.Node) *mcbor.Node { return mcbor.Tg(t, n) }})
 	}
+	// the COSE_Sign1 tag inside other tags (a CWT tag, another COSE tag, ...): the token is tag 18 itself, nothing around it
+	for _, t := range []uint64{0, 16, 17, 19, 24, 61, 96, 98, 256, 65536} {
+		t := t
+		tags = append(tags, tagOpt{fmt.Sprintf("%d(18())", t), eBad, func(n *mcbor.Node) *mcbor.Node { return mcbor.Tg(t, mcbor.Tg(18, n)) }})
+	}
 	tags = append(tags,
 		tagOpt{"18-nonminimal", eOpen, func(n *mcbor.Node) *mcbor.Node { return mcbor.Tg(18, n).W(1) }},
 		tagOpt{"18-nonminimal8", eOpen, func(n *mcbor.Node) *mcbor.Node { return mcbor.Tg(18, n).W(8) }},
 		tagOpt{"18(18())", eBad, func(n *mcbor.Node) *mcbor.Node { return mcbor.Tg(18, mcbor.Tg(18, n)) }},
 		tagOpt{"55799(18())", eBad, func(n *mcbor.Node) *mcbor.Node { return mcbor.Tg(55799, mcbor.Tg(18, n)) }},
 		tagOpt{"18(55799())", eBad, func(n *mcbor.Node) *mcbor.Node { return mcbor.Tg(18, mcbor.Tg(55799, n)) }},
+		tagOpt{"bstr(18())", eBad, func(n *mcbor.Node) *mcbor.Node { return mcbor.B(mcbor.Encode(mcbor.Tg(18, n))) }},
+		tagOpt{"24(bstr(18()))", eBad, func(n *mcbor.Node) *mcbor.Node { return mcbor.Tg(24, mcbor.B(mcbor.Encode(mcbor.Tg(18, n)))) }},
+		tagOpt{"[18()]", eBad, func(n *mcbor.Node) *mcbor.Node { return mcbor.A(mcbor.Tg(18, n)) }},
+		tagOpt{"61(55799(18()))", eBad, func(n *mcbor.Node) *mcbor.Node { return mcbor.Tg(61, mcbor.Tg(55799, mcbor.Tg(18, n))) }},
+		tagOpt{"61(61(18()))", eBad, func(n *mcbor.Node) *mcbor.Node { return mcbor.Tg(61, mcbor.Tg(61, mcbor.Tg(18, n))) }},
 		tagOpt{"18(bstr())", eBad, func(n *mcbor.Node) *mcbor.Node { return mcbor.Tg(18, mcbor.B(mcbor.Encode(n))) }},
 	)
 	shapes := []string{"4", "indef", "0", "1", "2", "3", "5-null", "5-bstr", "6", "map", "nonminimal-head", "reversed", "swap-payload-sig"}
@@ -339,3 +349,4 @@ func repoDir() string {
 	}
 	return "/repo"
 }
+
